@@ -49,7 +49,13 @@ def run(tier):
             records.append(rec)
             meta[rec["tid"]] = (text, o, out)
             ck.nontrivial(rec["tid"])
-    verdicts = tracecheck.validate("TraceOptions", records, "c06", ck=ck, chunk=500)
+    def canary(r):
+        o = r.get("opt")
+        if not r.get("accepted") or o.get("t") != "dict" or len(o["items"]) < 2 or r["opts"]["separate_complex_types"]:
+            return None
+        o["items"][0], o["items"][1] = o["items"][1], o["items"][0]
+        return r
+    verdicts = tracecheck.validate("TraceOptions", records, "c06", ck=ck, chunk=500, canary=canary)
     for rid, v in verdicts.items():
         if v["verdict"] != "ok":
             text, o, out = meta[rid]
